@@ -111,7 +111,7 @@ theorem send_then_handle (E : BlockFn) (hE : E.Len16) (s r : DS) (f : Frame) (ap
   obtain ⟨d, h1, h2⟩ := send_then_receive E hE s r f apdu key innerOk last other' hp hg hks hkr hseq hl
     hlt heff htp hlen hin
   refine ⟨d, by rw [h1], ?_⟩
-  simp only [handle, h2]
+  simp only [handle, h2, Payload.isSecure]
 
 /-- The theorems apply to the AES-128 model. -/
 theorem aes_roundtrip (key : Bytes) (scf : Scf) (seq : Nat) (c : Ctx) (apdu : Bytes)
